@@ -38,6 +38,7 @@ Print Assumptions C12_subtree_listing_is_the_filtered_listing.
         damaged versions) and any band selection policy ---- *)
 From Coq Require Import List NArith.
 From CV Require Import Backup Conf Valid Select SelectP.
+From CV Require Dest DestP DestTreeP DestSubP.
 Local Open Scope N_scope.
 
 (* Listing with a selection returns the selected part of the full listing, with the same
@@ -85,3 +86,35 @@ Theorem C12_valid_hunks_sources :
   /\ (forall a, valid_hunks_b a = true -> HunksValid a).
 Proof. exact Select_HunksValid_sources. Qed.
 Print Assumptions C12_valid_hunks_sources.
+
+(* ------------------------------------------------------------------------- *)
+(* The destination side of a selection (Dest.v).  Restoring only the subtree at [root] of
+   the listing of a real tree ([tree_listing]) into an empty destination reports no error,
+   resolves no path through a symlink, and leaves there: at every path at or below [root]
+   EXACTLY what a full restore puts there (the listed node with its kind, bytes or target),
+   a plain directory at every path leading to [root], and nothing anywhere else. *)
+Theorem C12_subtree_restore_builds_exactly_the_subtree :
+  forall (content_of : entry -> Entry.bytes) (es : list entry) (root : Dest.rpath) (s : Dest.dstate),
+    DestTreeP.tree_listing es ->
+    (root = [] \/ exists d, In d es /\ comps (e_apath d) = root /\ e_kind d = KDir) ->
+    Dest.restore_into content_of false [] (DestSubP.subtree_of root es) = Some s ->
+    Dest.d_esc s = 0 /\ Dest.d_errs s = 0
+    /\ Dest.d_done s = map e_apath (DestSubP.subtree_of root es)
+    /\ (forall p, p <> [] -> Dest.node_at (Dest.d_fs s) p = DestSubP.sub_spec content_of es root p).
+Proof. exact DestSubP.subtree_restore_builds_the_subtree. Qed.
+Print Assumptions C12_subtree_restore_builds_exactly_the_subtree.
+
+(* Selecting a single file or symlink: the entry itself, its parent directories made on the
+   way, nothing else. *)
+Theorem C12_single_entry_restore :
+  forall (content_of : entry -> Entry.bytes) (e : entry) (s : Dest.dstate),
+    is_valid (e_apath e) = true -> comps (e_apath e) <> [] ->
+    (e_kind e = KFile \/ (e_kind e = KSymlink /\ e_target e <> None)) ->
+    Dest.restore_into content_of false [] [e] = Some s ->
+    Dest.d_esc s = 0 /\ Dest.d_errs s = 0 /\ Dest.d_done s = [e_apath e]
+    /\ (forall q, q <> [] ->
+          Dest.node_at (Dest.d_fs s) q =
+          if Dest.rpath_eqb (comps (e_apath e)) q then Some (DestTreeP.node_of content_of e)
+          else if DestSubP.under q (comps (e_apath e)) then Some Dest.NDir else None).
+Proof. exact DestSubP.single_entry_restore. Qed.
+Print Assumptions C12_single_entry_restore.
